@@ -2,11 +2,11 @@ package main
 
 import (
 	"fmt"
-	"math"
-	"os"
 	"go/constant"
 	"go/token"
 	"go/types"
+	"math"
+	"os"
 	"sort"
 	"strings"
 
@@ -20,39 +20,40 @@ type Outcome struct {
 }
 
 type Engine struct {
-	prog      *ssa.Program
-	pkgs      map[string]*ssa.Package
-	inc       *Inc
-	obls      []*Obligation
-	unit      string
-	maxPaths  int
-	paths     int
-	loopHdr   map[*ssa.Function]map[*ssa.BasicBlock]int // header -> ordinal (1-based)
-	loopBody  map[*ssa.BasicBlock]map[*ssa.BasicBlock]bool
-	contracts map[string]*ssa.Function // vc_* functions by name, per package path + "." + name
-	bounded   int                      // unroll bound for loops without invariant
-	havoc     map[string]bool          // callees replaced by havoc (probe only)
-	stack     []*ssa.Function          // call stack
-	recFns    map[*ssa.Function]bool
-	unfoldFn  *ssa.Function
-	unfoldBudget int
-	recApps   map[string]recApp // rendered application -> (fn,args)
-	recAxioms map[string][]*Term // definitional equations of recursive applications (computed once)
-	noMerge   bool
-	unitFn    *ssa.Function
-	opaque    map[string]bool // spec functions kept abstract at call sites
-	depCache  map[*ssa.Function]map[string]bool
-	leafCache map[*ssa.Function][]heapLeaf
-	noPrune   int
-	memo      map[string][]Val
-	trace     bool
-	warnings  map[string]bool
-	variant   string
-	entryArgs []Val
-	entrySt   *State
-	reqWitness string
-	used      map[string]bool
-	observer  map[string]bool // callees kept abstract as pure functions of their arguments
+	prog          *ssa.Program
+	pkgs          map[string]*ssa.Package
+	inc           *Inc
+	obls          []*Obligation
+	unit          string
+	maxPaths      int
+	paths         int
+	loopHdr       map[*ssa.Function]map[*ssa.BasicBlock]int // header -> ordinal (1-based)
+	loopBody      map[*ssa.BasicBlock]map[*ssa.BasicBlock]bool
+	contracts     map[string]*ssa.Function // vc_* functions by name, per package path + "." + name
+	bounded       int                      // unroll bound for loops without invariant
+	havoc         map[string]bool          // callees replaced by havoc (probe only)
+	stack         []*ssa.Function          // call stack
+	recFns        map[*ssa.Function]bool
+	unfoldFn      *ssa.Function
+	unfoldBudget  int
+	recApps       map[string]recApp  // rendered application -> (fn,args)
+	recAxioms     map[string][]*Term // definitional equations of recursive applications (computed once)
+	recTemplates map[string]recApp // per abstracted function: one registered application (shape of the arguments)
+	noMerge       bool
+	unitFn        *ssa.Function
+	opaque        map[string]bool // spec functions kept abstract at call sites
+	depCache      map[*ssa.Function]map[string]bool
+	leafCache     map[*ssa.Function][]heapLeaf
+	noPrune       int
+	memo          map[string][]Val
+	trace         bool
+	warnings      map[string]bool
+	variant       string
+	entryArgs     []Val
+	entrySt       *State
+	reqWitness    string
+	used          map[string]bool
+	observer      map[string]bool // callees kept abstract as pure functions of their arguments
 	pendingParent *Frame
 }
 
@@ -359,7 +360,7 @@ func (e *Engine) execFunc(st *State, fn *ssa.Function, args []Val, bind []Val, d
 	e.analyzeLoops(fn)
 	if st.spec && depth > 1 && scalarResults(fn) && !e.noMerge {
 		// pure scalar spec function: evaluate path-wise on a clone and merge the results into one ite-term
-		key := fn.String() + "|" + renderVals(args) + "|" + st.heapFingerprint() + fmt.Sprint(st.assume)
+		key := fn.String() + "|" + renderVals(e.derefLocals(st, args)) + "|" + st.heapFingerprint() + fmt.Sprint(st.assume)
 		if m, ok := e.memo[key]; ok {
 			return []Outcome{{st: st, ret: m}}
 		}
@@ -1653,12 +1654,13 @@ func (t TableV) lookup(idx *Term) *Term {
 	return r
 }
 
-
 // absApp abstracts a recursive spec call as an uninterpreted application of its flattened arguments.
 func (e *Engine) absApp(st *State, fn *ssa.Function, args []Val) Val {
 	var ts []*Term
 	var sorts []string
-	for _, a := range args {
+	byValue := false
+	boxed := false
+	for ai, a := range args {
 		switch x := a.(type) {
 		case *Term:
 			ts = append(ts, x)
@@ -1676,6 +1678,23 @@ func (e *Engine) absApp(st *State, fn *ssa.Function, args []Val) Val {
 			}
 		case IfaceSym:
 			ts = append(ts, x.ID)
+		case PtrCell:
+			// address of a local: a pure function sees only what it holds; the value travels with the
+			// application (the cell belongs to the state of this evaluation only)
+			held := getPath(st.cells[x.ID], x.Path)
+			ts = append(ts, flattenVal(held)...)
+			byValue = true
+			if !boxed {
+				args = append([]Val{}, args...)
+				boxed = true
+			}
+			args[ai] = BoxV{held}
+		case BoxV:
+			ts = append(ts, flattenVal(x.V)...)
+			byValue = true
+		case StructV:
+			ts = append(ts, flattenVal(x)...)
+			byValue = true
 		default:
 			fail("absApp: argument %T", a)
 		}
@@ -1692,6 +1711,9 @@ func (e *Engine) absApp(st *State, fn *ssa.Function, args []Val) Val {
 	res := fn.Signature.Results().At(0).Type()
 	if w := bvWidth(res); w >= 0 {
 		name := "rec_" + fn.Name()
+		if byValue {
+			name += fmt.Sprintf("_v%d", len(ts)) // a different flattening of the arguments: a different symbol
+		}
 		DeclareUF(name, sorts, sortOf(&Term{W: w}))
 		t := UF(name, w, ts...)
 		snap := make(map[string]*Term, len(st.heap))
@@ -1700,7 +1722,11 @@ func (e *Engine) absApp(st *State, fn *ssa.Function, args []Val) Val {
 		}
 		if !e.opaque[fn.Name()] {
 			// (opaque functions stay uninterpreted: no definitional axiom)
-			e.recApps[t.String()] = recApp{fn, args, t, snap}
+			ra := recApp{fn, args, t, snap}
+			e.recApps[t.String()] = ra
+			if _, ok := e.recTemplates[name]; !ok {
+				e.recTemplates[name] = ra
+			}
 		}
 		return t
 	}
@@ -1710,7 +1736,6 @@ func (e *Engine) absApp(st *State, fn *ssa.Function, args []Val) Val {
 	fail("absApp: result type %s", typeName(res))
 	return nil
 }
-
 
 type recApp struct {
 	fn   *ssa.Function
@@ -1839,6 +1864,15 @@ func (e *Engine) isRecursive(fn *ssa.Function) bool {
 // unfoldOnce evaluates the body of a recursive spec function one level deep.
 func (e *Engine) unfoldOnce(st *State, fn *ssa.Function, args []Val) []Outcome {
 	s2 := st.clone()
+	for i, a := range args {
+		if b, ok := a.(BoxV); ok {
+			// a pointer argument that stood for the value it pointed to: give it a cell of its own here
+			if i == 0 || true {
+				args = append([]Val{}, args...)
+			}
+			args[i] = PtrCell{ID: s2.newCell(b.V)}
+		}
+	}
 	s2.spec = true
 	s2.goal = false
 	savedFn, savedB, savedPaths := e.unfoldFn, e.unfoldBudget, e.paths
@@ -1876,8 +1910,21 @@ func (e *Engine) defAxioms(st *State, terms []*Term) []*Term {
 			}
 			return
 		}
-		if strings.HasPrefix(t.Op, "rec_") {
+		if strings.HasPrefix(t.Op, "rec_") && !t.hasBound {
 			if k := t.String(); !seen[k] {
+				if _, ok := e.recApps[k]; !ok {
+					// an application that came into being by instantiating a quantified fact: its argument values
+					// are rebuilt from a registered application of the same function
+					if tpl, ok2 := e.recTemplates[t.Op]; ok2 {
+						if vs, ok3 := unflattenArgs(tpl.args, t.Args); ok3 {
+							snap := make(map[string]*Term, len(st.heap))
+							for hk, hv := range st.heap {
+								snap[hk] = hv
+							}
+							e.recApps[k] = recApp{tpl.fn, vs, t, snap}
+						}
+					}
+				}
 				if _, ok := e.recApps[k]; ok {
 					seen[k] = true
 					found = append(found, k)
@@ -1925,6 +1972,20 @@ func (e *Engine) defAxioms(st *State, terms []*Term) []*Term {
 	return ax
 }
 
+// derefLocals replaces pointers to locals by the values they hold (what a pure function of the pointer can see):
+// a memo key must not identify two evaluations just because the same cell is pointed to on two different paths.
+func (e *Engine) derefLocals(st *State, vs []Val) []Val {
+	out := vs
+	for i, v := range vs {
+		if p, ok := v.(PtrCell); ok {
+			if i == 0 || &out[0] == &vs[0] {
+				out = append([]Val{}, vs...)
+			}
+			out[i] = TupleV{OpaqueV{"&"}, getPath(st.cells[p.ID], p.Path)}
+		}
+	}
+	return out
+}
 
 func renderVals(vs []Val) string {
 	var sb strings.Builder
@@ -1937,6 +1998,10 @@ func renderVals(vs []Val) string {
 			if x.Arr != nil {
 				sb.WriteString("@" + x.Arr.String())
 			}
+		case StructV:
+			sb.WriteString("{" + renderVals(x.F) + "}")
+		case TupleV:
+			sb.WriteString("(" + renderVals([]Val(x)) + ")")
 		default:
 			sb.WriteString(fmt.Sprintf("%v", v))
 		}
@@ -1944,7 +2009,6 @@ func renderVals(vs []Val) string {
 	}
 	return sb.String()
 }
-
 
 // heapDeps: names of heap array families a function may read, from the types reachable from its parameters.
 func (e *Engine) heapDeps(fn *ssa.Function) map[string]bool {
@@ -1989,7 +2053,6 @@ func (e *Engine) heapDeps(fn *ssa.Function) map[string]bool {
 	e.depCache[fn] = d
 	return d
 }
-
 
 func isIfaceNotErr(t types.Type) bool {
 	_, ok := t.Underlying().(*types.Interface)
@@ -2089,7 +2152,6 @@ func (e *Engine) mapUpdate(st *State, fr *Frame, i *ssa.MapUpdate) {
 	st.objs[mv.ID] = &MapObj{Dom: nd, Vals: map[string]*Term{"p": na}, KeyW: m.KeyW, ValT: m.ValT, Own: own, T: m.T}
 }
 
-
 // fullText renders the terms together with the bodies of every abbreviation they (transitively) mention.
 func fullText(terms []*Term) string {
 	var sb strings.Builder
@@ -2107,7 +2169,6 @@ func fullText(terms []*Term) string {
 	}
 	return sb.String()
 }
-
 
 // simplifyIte prunes the branches of an ite chain that the current path condition decides (the merged evaluation
 // of specification functions and table lookups is path-independent, so the same term is reused on every path and
@@ -2149,7 +2210,6 @@ func (e *Engine) simplifyVals(st *State, vs []Val) []Val {
 	return out
 }
 
-
 // runDefers executes the frame's deferred calls (last first) and continues after the RunDefers instruction.
 func (e *Engine) runDefers(st *State, fr *Frame, b *ssa.BasicBlock, next int) []Outcome {
 	if len(fr.defers) == 0 {
@@ -2168,11 +2228,9 @@ func (e *Engine) runDefers(st *State, fr *Frame, b *ssa.BasicBlock, next int) []
 	return res
 }
 
-
 func isSpecName(n string) bool {
 	return strings.HasPrefix(n, "spec") || strings.HasPrefix(n, "Spec")
 }
-
 
 // mapKeyTerm: scalar keys are themselves; byte-array keys ([16]byte server ids) are the concatenation of their bytes.
 func mapKeyTerm(v Val) *Term {
@@ -2226,4 +2284,76 @@ func newMapObj(mt *types.Map, freshContents bool) *MapObj {
 		}
 	}
 	return mo
+}
+
+// unflattenArgs rebuilds argument values of the shape of tpl from the flattened terms ts (inverse of the
+// flattening in absApp).
+func unflattenArgs(tpl []Val, ts []*Term) ([]Val, bool) {
+	i := 0
+	next := func() *Term {
+		if i >= len(ts) {
+			return nil
+		}
+		t := ts[i]
+		i++
+		return t
+	}
+	var build func(v Val) (Val, bool)
+	build = func(v Val) (Val, bool) {
+		switch x := v.(type) {
+		case *Term:
+			t := next()
+			return t, t != nil
+		case SliceV:
+			b, o, l := next(), next(), next()
+			if l == nil {
+				return nil, false
+			}
+			x.Base, x.Off, x.Len = b, o, l
+			x.Arr = nil
+			return x, true
+		case StructV:
+			f := make([]Val, len(x.F))
+			for k := range x.F {
+				fv, ok := build(x.F[k])
+				if !ok {
+					return nil, false
+				}
+				f[k] = fv
+			}
+			return StructV{T: x.T, F: f}, true
+		case PtrHeap:
+			r := next()
+			for range x.Path {
+				next()
+			}
+			if r == nil {
+				return nil, false
+			}
+			return PtrHeap{Ref: r, Root: x.Root, Path: x.Path}, true
+		case IfaceSym:
+			t := next()
+			x.ID = t
+			return x, t != nil
+		case ErrV:
+			t := next()
+			x.ID = t
+			return x, t != nil
+		case BoxV:
+			in, ok := build(x.V)
+			return BoxV{in}, ok
+		case ListV, OpaqueV, NilV, IfaceV, FuncSym, MapV, TupleV:
+			return v, true
+		}
+		return nil, false
+	}
+	out := make([]Val, len(tpl))
+	for k, a := range tpl {
+		v, ok := build(a)
+		if !ok {
+			return nil, false
+		}
+		out[k] = v
+	}
+	return out, i == len(ts)
 }
